@@ -589,7 +589,10 @@ func init() {
 		// spellings name the same part only if the literal is decoded by the documented rules and the classes are Unicode's
 		r.importing = "C16"
 		checkLiteralFidelity(r, ga)
+		r.importing = "C16"
+		checkKeywordBoundary(r, ga, "c16") // a dotted selector that begins like a keyword (`notes.b`) is the selector its other spellings are
 		r.importing = "C15"
+		checkEngineInvariants(r, prog, "c15") // a part written in brackets holds whatever characters it holds (U+FFFD is one)
 		checkRuleRefAndClasses(r, prog, "c15")
 		// the parts looked up are the parts of this expression's text: the tree evaluated is the parse of exactly that text
 		r.importing = "C03"
